@@ -419,6 +419,14 @@ private:
             bool                    fUseDefault,
             const XalanDOMChar**    theLocalName = 0);
 
+    /**
+     * Create the list heads of the (possibly empty) lookup maps, so that
+     * the const lookup functions never have to create them when the
+     * document is shared between threads.
+     */
+    void
+    createMapListHeads();
+
     // Not implemented...
     XalanSourceTreeDocument(const XalanSourceTreeDocument&  theSource);
 
